@@ -21,7 +21,11 @@ CheckNext(e, line) ==
 CheckDelivered(e, line) ==
   DeliveredOK(e.log, e.start, <<e.scope[1], e.scope[2]>>, e.delivered, e.invalidate)
   \/ Bad(line, "stream:delivered", Deliveries(e.log, e.start, <<e.scope[1], e.scope[2]>>), e.delivered)
+CheckPrefix(e, line) ==
+  DeliveredPrefixOK(e.log, e.start, <<e.scope[1], e.scope[2]>>, e.delivered, e.lost)
+  \/ Bad(line, "stream:delivered-under-retention", Deliveries(e.log, e.start, <<e.scope[1], e.scope[2]>>), e.delivered)
 Checked == l # 0 => CASE Trace[l].fn = "snext" -> CheckNext(Trace[l], l)
                       [] Trace[l].fn = "sdeliv" -> CheckDelivered(Trace[l], l)
+                      [] Trace[l].fn = "sprefix" -> CheckPrefix(Trace[l], l)
                       [] OTHER -> TRUE
 =============================================================================
